@@ -1316,10 +1316,12 @@ class Interp(object):
                 # a callee that only reads its arguments may be kept as an uninterpreted function
                 # of its (abstract) arguments when it cannot be modelled
                 snap = st.fork()
+                steps0 = self.steps
                 try:
                     return self.call_mir(body, body["mir"], args, st, env, fr.depth + 1, pc)
                 except Undecided as e:
                     self.uf_used.append((path, e.cause))
+                    self.steps = steps0
                     st.mem = snap.mem
                     return self.ret(st, pc, Opaque("uf", (path,) + tuple(self.uf_arg(a, st) for a in args)))
             return self.call_mir(body, body["mir"], args, st, env, fr.depth + 1, pc)
